@@ -188,6 +188,28 @@ Progress == (AllDone /\ ~SomeOk /\ \A t \in Threads : Len(prog[t]) = 1) =>
     /\ AllOps(IsPopOp) => Len(absQ) < Len(prog)             \* there were not enough stored elements
 
 -----------------------------------------------------------------------------
+\* TicketRing.IndInv (the invariant shown inductive by Apalache for the protocol without wrap) read modulo M on this
+\* code-shaped model, whose every edge is replayed on the real ring: the same facts hold in every reachable state
+\* here, across the counter wrap.  Distances are taken modulo M (sound while M >= 2 * cap, as in every configuration).
+IsWriting(t) == (PC(t) = "p_wr" /\ loc[t].okf) \/ PC(t) = "p_st"
+IsReading(t) == (PC(t) = "o_rd" /\ loc[t].okf) \/ PC(t) = "o_st"
+TicketInv ==
+    /\ Sub(tail, head) <= cap
+    /\ \A t \in Threads : IsWriting(t) =>
+           /\ Sub(loc[t].pos, head) < Sub(tail, head) /\ seq[Idx(loc[t].pos) + 1] = loc[t].pos
+    /\ \A t \in Threads : IsReading(t) =>
+           /\ Sub(head, loc[t].pos) >= 1 /\ Sub(head, loc[t].pos) <= cap
+           /\ Sub(tail, loc[t].pos) <= cap /\ seq[Idx(loc[t].pos) + 1] = Add(loc[t].pos, 1)
+    /\ \A t, u \in Threads : (t # u /\ ((IsWriting(t) /\ IsWriting(u)) \/ (IsReading(t) /\ IsReading(u)))) => loc[t].pos # loc[u].pos
+    /\ \A k \in 0..cap - 1 : LET p == Add(head, k)  s == seq[Idx(p) + 1] IN
+           IF k < Sub(tail, head)
+           THEN s = Add(p, 1) \/ (s = p /\ \E t \in Threads : IsWriting(t) /\ loc[t].pos = p)
+           ELSE s = p \/ (s = Add(Sub(p, cap), 1) /\ \E t \in Threads : IsReading(t) /\ loc[t].pos = Sub(p, cap))
+\* no two goroutines in the plain (non-atomic) access of the same slot's value
+SlotExclusion == \A t, u \in Threads :
+    (t # u /\ PC(t) \in {"p_wr", "o_rd"} /\ loc[t].okf /\ PC(u) \in {"p_wr", "o_rd"} /\ loc[u].okf) => Idx(loc[t].pos) # Idx(loc[u].pos)
+
+-----------------------------------------------------------------------------
 \* Edge emission (see SyncListImpl): s = shared memory as the harness can read it, k = complete
 \* model state, o = what an observer calling Len()/IsEmpty()/IsFull() now sees, d = black-box probe
 View == <<prog, cap, head, tail, seq, val, loc>>
